@@ -26,7 +26,7 @@ import (
 	"scen"
 )
 
-const verifDir = "/verif"
+var verifDir = "/verif" // where evidence/ and replays/ are written (MC_VERIF_OUT overrides; KNOWN_FINDINGS.jsonl is always read from /verif)
 
 type FoundRec struct {
 	Item     int      `json:"item"`
@@ -76,7 +76,7 @@ type Finding struct {
 }
 
 func loadFindings() []Finding {
-	f, err := os.Open(filepath.Join(verifDir, "KNOWN_FINDINGS.jsonl"))
+	f, err := os.Open("/verif/KNOWN_FINDINGS.jsonl")
 	if err != nil {
 		return nil
 	}
@@ -153,6 +153,9 @@ func (fd *Finding) matches(prop string, fr *FoundRec) bool {
 func main() {
 	if len(os.Args) < 2 {
 		usage()
+	}
+	if o := os.Getenv("MC_VERIF_OUT"); o != "" {
+		verifDir = o
 	}
 	switch os.Args[1] {
 	case "check":
